@@ -11,7 +11,11 @@ use std::fmt::Write as _;
 pub struct Rng(pub u64);
 impl Rng {
     pub fn new(seed: u64) -> Rng {
-        Rng(seed.wrapping_mul(0x9E3779B97F4A7C15).wrapping_add(0x1234_5678_9ABC_DEF1))
+        // the seed goes through the splitmix finalizer once: with a plain affine start state, seed s+1 is seed s
+        // advanced by one step, and the shards of one run (seeds k, k+1, ...) would be shifted copies of each other
+        let mut r = Rng(seed.wrapping_mul(0x9E3779B97F4A7C15).wrapping_add(0x1234_5678_9ABC_DEF1));
+        let s = r.next();
+        Rng(s ^ 0xD1B5_4A32_D192_ED03)
     }
     pub fn next(&mut self) -> u64 {
         self.0 = self.0.wrapping_add(0x9E3779B97F4A7C15);
